@@ -214,7 +214,7 @@ pub fn run(ctx: &mut Ctx, prop: &str) {
     }
     // white-space blocks: "1" wrapped in (and each of) every character of the blocks around the white-space
     // and format characters, against a few partners, both ways round (R's table is validated per character)
-    for x in al::ws_block_strings() {
+    for x in al::ws_block_strings().into_iter().chain(al::mutated_literals()) {
         if !ctx.mine() {
             continue;
         }
@@ -307,4 +307,5 @@ pub fn run(ctx: &mut Ctx, prop: &str) {
     }
     crate::spaces::render_probes(ctx, ops);
     crate::spaces::type_grid_probes(ctx, ops);
+    crate::spaces::depth_probes(ctx);
 }
